@@ -5,7 +5,8 @@
    level-triggered, sound and complete.  Real preemption inside system calls, signal latency
    and wall-clock time are outside the model (design/C17.md).
 
-   Counted (15 theorems): C17_invariant, _wake, _wake_never_sleeps, _wake_progress,
+   Counted (16 theorems, with C17_resize_final_size_partial on the separate model IO/SizeQuery.v of
+   escape sequence resize mode; listed below are the 15 on IO/PollLoop.v): C17_invariant, _wake, _wake_never_sleeps, _wake_progress,
    _resize_progress, _returns_within, _wake_returns_within, _fifo, _quit, _poll_keeps_settings,
    _restore, _restore_any_tee (dispose with the copy of the output as an oracle), _closing_delivered, _closing_delivered_short_writes (all _partial) and
    C17_closing_needs_a_reading_peer_refuted (boundary witness of the domain assumption "the peer
@@ -28,7 +29,7 @@
      PI                    the invariant; Wk s = "a wake is in the pipeline" *)
 From Coq Require Import List NArith Arith Bool.
 From SNT Require Import Base.Outcome IO.IOQueue IO.IOQueueProofs IO.TermIO IO.PollLoop
-  IO.PollLoopProofs IO.PollLoopClosing IO.PollLoopTee.
+  IO.PollLoopProofs IO.PollLoopClosing IO.PollLoopTee IO.SizeQuery.
 Import ListNotations.
 
 Section Statements.
@@ -211,6 +212,19 @@ Section Statements.
     tty (io s') = tty (io s) ++ front_slice (tq (io s)) ++ closing.
   Proof. exact dispose_delivers_under_short_writes. Qed.
 End Statements.
+
+(* ---- escape sequence resize mode (the terminal is asked for its size on SIGWINCH): a transition
+   system of its own, IO/SizeQuery.v - the peer's size, the SIGWINCH flag, the write queue item by
+   item, queries the peer has not read, answers poll has not read (an oracle queue), the
+   `size_query` flag, frames_drop.  After ANY interleaving of resizes, signal steps, writes of
+   the application, sends, answers, reads and drops: once nothing is in the pipeline any more
+   (no flagged signal, no query queued or unread, no answer unread) the last Resize event reports
+   the peer's final size.  Items are whole and each is a chunk of its own; hang-up, write errors
+   and a peer that never answers are outside (then the state is not quiescent). *)
+Theorem C17_resize_final_size_partial : forall d ms,
+  let s := srun (sopened d) ms in
+  quiescent s -> last (zreported s) 0%N = zpsize s.
+Proof. exact last_resize_is_final_size. Qed.
 
 (* ---- boundaries, exhibited on the model *)
 
